@@ -217,6 +217,7 @@ pub fn run_mt(run: u64, rounds: u64, workers: usize, seed: u64) -> Vec<String> {
     let mut h: u32 = 10;
     let out: Vec<String> = rt.block_on(async {
         let mut v = Vec::new();
+        let mut spent = std::time::Duration::ZERO;
         for _ in 0..rounds {
             let k = 2 + rng.below(3) as u32;
             // strictly increasing candidates above the current height, delivered concurrently in a shuffled order
@@ -228,13 +229,34 @@ pub fn run_mt(run: u64, rounds: u64, workers: usize, seed: u64) -> Vec<String> {
                 hs.swap(i, rng.below(i as u64 + 1) as usize);
             }
             let mut js = Vec::new();
+            // the calls start together: each task announces itself and spins (bounded) until all have arrived, so
+            // that they are really inside new_block at the same time whatever the load of the machine is
+            let n = hs.len() as u32;
+            let arrived = Arc::new(std::sync::atomic::AtomicU32::new(0));
+            let gate = n as usize <= workers;
+            // on a busy machine the others may need a few scheduler quanta to arrive: wait up to 20 ms for them, as long
+            // as the rounds of this job have not used up 20 s in total
+            let patience = if spent < std::time::Duration::from_secs(20) { std::time::Duration::from_millis(20) } else { std::time::Duration::from_micros(300) };
+            let r0 = std::time::Instant::now();
             for x in hs.clone() {
                 let b = Arc::clone(&bw);
-                js.push(tokio::spawn(async move { let blk = BlockAdded { height: x }; crate::await_if_future!(b.new_block(&blk)) }));
+                let arrived = Arc::clone(&arrived);
+                js.push(tokio::spawn(async move {
+                    if gate {
+                        arrived.fetch_add(1, std::sync::atomic::Ordering::SeqCst);
+                        let t0 = std::time::Instant::now();
+                        while arrived.load(std::sync::atomic::Ordering::SeqCst) < n && t0.elapsed() < patience {
+                            std::hint::spin_loop();
+                        }
+                    }
+                    let blk = BlockAdded { height: x };
+                    crate::await_if_future!(b.new_block(&blk))
+                }));
             }
             for j in js {
                 let _ = j.await;
             }
+            spent += r0.elapsed();
             let known = bw.current_height().await;
             v.push(json!({"ev":"batch","hs":hs,"known":known,"issued":0,"started":"ok"}).to_string());
             h += k;
